@@ -46,6 +46,8 @@ REFUTATIONS = (
     'assert_bitvector_by',
     'bitvector assertion not satisfied',
     'bitvector ensures not satisfied',
+    'unable to prove post-condition of closure',
+    'unable to prove precondition of closure',
 )
 UNDECIDED_MARKS = ('Resource limit (rlimit) exceeded', 'while loop: Resource limit', 'rlimit')
 
